@@ -1,0 +1,40 @@
+//go:build verif
+
+// Contracts for build_sample_md, read by /verif's verifier (fovc).  Comment-only.
+// The documented template is readme_section / readme_header in /verif/specs/decl.spec; the file system
+// is the abstract global fsr (readable) / fsc (content).
+
+package main
+
+//@ mode slices=value strings=smt
+
+//@ func convOne
+//@   props C18
+//@   modifies glob:stdout
+//@   panics iff !glob(fsr)[path_join(dir, line_name(oneline))]
+//@   returns readme_section(oneline, glob(fsc)[path_join(dir, line_name(oneline))])
+//@   ensures fs-untouched: glob(fsc) == old(glob(fsc)) && glob(fsr) == old(glob(fsr))
+
+//@ func processListFile
+//@   props C18
+//@   modifies glob:stdout glob:fsr glob:fsc
+//@   ghost L []string          -- the non-empty lines of the list file, in order
+//@   ghost S []string          -- one section per line
+//@   ghost idx map[int]int     -- L[k] is line idx[k] of the list file
+//@   ghost inv map[int]int
+//@   ghost W bool              -- did the final write succeed
+//@   panics may
+//@   onpanic nothing-written: glob(fsc) == old(glob(fsc)) && glob(fsr) == old(glob(fsr))
+//@   ensures listed: old(glob(fsr))[listPath]
+//@   ensures lines: forall k int :: 0 <= k && k < len(L) ==> 0 <= idx[k] && idx[k] < len(go_split(old(glob(fsc))[listPath], "\n")) && L[k] == go_split(old(glob(fsc))[listPath], "\n")[idx[k]] && L[k] != ""
+//@   ensures lines-order: forall k int, l int :: 0 <= k && k < l && l < len(L) ==> idx[k] < idx[l]
+//@   ensures lines-complete: forall j int :: 0 <= j && j < len(go_split(old(glob(fsc))[listPath], "\n")) && go_split(old(glob(fsc))[listPath], "\n")[j] != "" ==> 0 <= inv[j] && inv[j] < len(L) && idx[inv[j]] == j
+//@   ensures all-readable: forall k int :: 0 <= k && k < len(L) ==> old(glob(fsr))[path_join(path_dir(listPath), line_name(L[k]))]
+//@   ensures sections: len(S) == len(L) && (forall k int :: 0 <= k && k < len(L) ==> S[k] == readme_section(L[k], old(glob(fsc))[path_join(path_dir(listPath), line_name(L[k]))]))
+//@   ensures written: W ==> glob(fsc) == store(old(glob(fsc)), path_join(path_dir(listPath), destName), readme_header + join_prefix(S, "\n", len(S))) && glob(fsr) == store(old(glob(fsr)), path_join(path_dir(listPath), destName), true)
+//@   ensures not-written: !W ==> glob(fsc) == old(glob(fsc)) && glob(fsr) == old(glob(fsr))
+//@   at after call slice.Filter#0: L = ret
+//@   at after call slice.Filter#0: idx = c_idx
+//@   at after call slice.Filter#0: inv = c_inv
+//@   at after call slice.Map#0: S = ret
+//@   at after call sys.WriteFile#0: W = ret
